@@ -30,11 +30,33 @@ of the package, every class through its MRO, static / class methods), never list
      MRO) x shapes x pools; plus L1S: every alias of the package that is shadowed by a re-declaration in a real
      subclass (Expression.getValue under the 31 classes that re-declare getValue) x every explicit path on the real
      class.  Same reference model as L0H; the expected function is turned into the sentinel.
+ RK  WHAT THE REPLACEMENT IS on the receiver.  The new name is redefined as every kind of thing ``receiver.new(...)`` can
+     call - plain method, classmethod, staticmethod, functools.partialmethod, functools.partial, a callable object stored as
+     class attribute, a custom descriptor, a property that returns a function, a staticmethod wrapping a callable object,
+     functools.singledispatchmethod; on the instance: a function, a bound method of another object, a callable object - at
+     every position {the receiver's own class, a parent, a mixin left of the declaring class, patched onto the declaring
+     class itself (a mock patch), the instance} x receiver flavours {plain, falsy, truth value raises, == raises,
+     __getattribute__ hook, immutable; class-method aliases: metaclass whose truth value raises} x paths x shapes x pools.
+     RK0: toy classes declared with the real decorator ({method, classmethod} aliases); RK1: ALL (receiver class, alias)
+     pairs of the package.  Oracle (Python's own attribute resolution is the reference): the call of the old name hands
+     the sentinel exactly what the call of the new name on the same receiver hands it (implementation, bound objects,
+     arguments by identity), returns / raises the same object, plus one DeprecationWarning; a table of the expected
+     arguments per kind cross-checks the reference side (disagreement = harness error).  Out of the domain (counted): the
+     new name is not callable on the receiver.
  TS  target sanity: the old name, snake-cased (documented suffixes removed), must identify the
      wrapper's target among the callables of the same scope.
  DP  ``deprecated_parameters``: every decorated callable x every subset (<= bound) of its obsolete
      keywords x positional shapes; the undecorated function is the sentinel; reference model of the
      renaming in plain Python.
+ DPV values handed to obsolete keywords: every decorated callable (plus a toy one declared with the real decorator) x
+     every obsolete keyword x the HOSTILE VALUE alphabet {generator, list iterator, map / zip object, dict view, range,
+     iterable without __len__, objects that record every special method, objects whose __len__ / __iter__ / __bool__ /
+     __eq__ / __hash__ / attribute probe / copy / __repr__ / __str__ / __format__ raises, 0-d / 1-d / empty numpy array,
+     DataFrame, Series, strings with format characters / a lone surrogate, bytes} x positional count x companion keyword.
+     Oracle: the new keyword takes the value untouched (control, else out of the domain), so the old keyword must hand the
+     function the SAME object under the new name, unconsumed, with no special method called (a text rendering for the
+     warning is tolerated and counted), and must not refuse it.  The same 'hostile' values are a third token pool of
+     L0, L1F, RK0 and RK1 (positional / keyword / return values of the aliases).
  L2  paired behavioural calls old(*args) vs new(*args) on identically built real receivers from a
      recipe table (functions of models / draws / tools / version / results / segmentation, Expression,
      Database, IdManager, BIOGEME and bioResults methods); aliases without a recipe are *counted*
@@ -57,15 +79,22 @@ LEVEL = 'exploration'
 TECHNIQUE = ('exhaustive enumeration of all discovered (receiver class, alias) pairs x call variants x argument '
              'shapes with a recording sentinel as the replacement, every access path (ordinary, K.old(obj), super(K, obj).old()) '
              'on exhaustively enumerated class hierarchies and on every package class against a plain-Python model of name '
-             'resolution, plus paired old/new calls on real receivers from a recipe table, on the real package')
+             'resolution, every kind of object the replacement can be on the receiver (static / partial method, callable object, '
+             'descriptor, instance attribute, patch ...) against the call of the new name on the same receiver, a hostile value '
+             'alphabet (one-shot iterables, objects whose special methods raise or are recorded) through every renamed keyword, '
+             'plus paired old/new calls on real receivers from a recipe table, on the real package')
 RULE = ('L0: toy declarations (5 forms) x receivers x shapes; L0H: every hierarchy over {inherit, ov-new, redecl, realias, '
         'plain-old} per class (chains of depth <= 3, thorough 4; diamonds, thorough with a class below) x {method, classmethod} '
         'x every access path on the bottom receiver x shapes x pools; L1X: every (class, alias) pair x receiver {override, '
         'redeclare, replace-old, plain} x every explicit path K.old(obj) / super(K, obj).old() over the MRO x shapes x pools (non-trivial: '
         'the expected function differs from the one the receiver resolves, or the receiver overrides it); L1: every discovered (class, alias) pair x variants '
-        '{sub1, sub2, viaclass, own} x (positional count x keyword set x raise) x 2 token pools, every module-level '
+        '{sub1, sub2, viaclass, own} x (positional count x keyword set x raise) x 2 token pools (thorough: 3, with the hostile values), every module-level '
         'alias binding x shapes x pools; TS: every alias declaration; DP: every decorated callable x keyword subsets x '
-        'shapes; L2: every recipe x argument set.  A case is non-trivial when the sentinel / both paired calls were '
+        'shapes; RK0: {method, classmethod} toy alias x 13 kinds of replacement x position {own class, parent, mixin, patched '
+        'declaring class, instance} x receiver flavour x path x shapes x 3 pools; RK1: every (class, alias) pair x kind x position '
+        '{own, patch (thorough: parent), instance} x shapes x pools; DPV: every decorated callable + a toy one x every obsolete '
+        'keyword x 27 hostile value kinds x positional count x companion keyword; L2: every recipe x argument set (renamed '
+        'keywords that take an iterable: every iterable form, built anew for each side).  A case is non-trivial when the sentinel / both paired calls were '
         'actually executed and compared (L1 own: only when the receiver class resolves the replacement to another '
         'function than the class declaring the alias; TS: only when an independent candidate exists; DP: only with at '
         'least one obsolete keyword; L2: both sides executed - pairs where both raise the same exception type are '
@@ -83,6 +112,12 @@ ASSUMPTIONS = [
     'that reaches an alias shadowed by a re-declaration must run what the same explicit call of the new name runs, and this '
     'is demanded only where all explicit paths reaching that alias agree (else counted: *_undecidable / weak oracle "one of '
     'the candidates")',
+    'RK: the reference side is the call of the new name on the same receiver object (performed first; the replacement kinds '
+    'are stateless sentinels); a class-method alias is bound to the class however it is reached, so its counterpart is the '
+    'class-level call of the new name; receivers on which the new name is not callable are out of the domain (counted)',
+    'DPV / hostile pool: calling __format__ / __str__ / __repr__ of a value (quoting it in the warning) is tolerated and '
+    'counted; any other special method called on a value, a consumed iterator or a refused value is a violation; values whose '
+    'control call (new keyword) does not reach the function untouched are out of the domain',
     'static-method aliases cannot see a receiver: for them only "keeps working" (reaches the declared or the resolved '
     'replacement) is demanded; there is none in the package today',
 ]
@@ -110,9 +145,13 @@ class Tok:
 
 def pool_values(pool):
     """A pool is a list of >= 8 values used as positional / keyword / return tokens.
-    pool 'obj' = opaque objects; pool 'val' = a per-seed alphabet of ordinary (incl. falsy, mutable) values."""
+    pool 'obj' = opaque objects; pool 'val' = a per-seed alphabet of ordinary (incl. falsy, mutable) values;
+    pool 'hostile' = values that must be handed on UNTOUCHED (one-shot iterables, objects whose special methods raise /
+    are recorded) - built afresh on every call (see the hostile value alphabet below)."""
     if pool == 'obj':
         return [Tok(i) for i in range(8)]
+    if pool == 'hostile':
+        return [hostile_make(k) for k in HOSTILE_POOL[_SEED % len(HOSTILE_POOL)]]
     alph = {
         0: [0, '', None, False, 0.0, (), [], {}],
         1: [10 ** 20, -1, 2.5, 'x', b'y', (1, 2), [3], {'k': 4}],
@@ -138,6 +177,163 @@ def same_objs(a, b):
 
 def same_kw(a, b):
     return list(a) == list(b) and all(a[k] is b[k] for k in a)
+
+
+# =========================================================================== hostile value alphabet
+# Values a forwarding layer must hand on UNTOUCHED: by identity, unconsumed, without calling any of their special methods
+# (only a text rendering - __format__ / __str__ / __repr__ - is tolerated, since the renamed-keyword warning quotes the value).
+class HostileError(Exception):
+    pass
+
+
+RENDER = ('__format__', '__str__', '__repr__')
+_H_METHODS = ('__len__', '__iter__', '__bool__', '__eq__', '__ne__', '__hash__', '__contains__', '__getitem__',
+              '__copy__', '__deepcopy__', '__reduce_ex__', '__getattr__', '__index__', '__float__')
+
+
+class _HBase:
+    """Every special method records its name in ``_log`` before it answers (or raises, for the names in RAISES)."""
+    kind = 'counting'
+    RAISES = ()
+
+    def __init__(self):
+        object.__setattr__(self, '_log', [])
+
+    def _t(self, name):
+        self._log.append(name)
+        if name in self.RAISES:
+            raise HostileError(f'{name} of the value was called')
+
+    def __repr__(self):
+        self._t('__repr__')
+        return f'<c20 {self.kind} value (repr)>'
+
+    def __str__(self):
+        self._t('__str__')
+        return f'<c20 {self.kind} value>'
+
+    def __format__(self, spec):
+        self._t('__format__')
+        return str(self)   # (what object.__format__ does)
+
+
+def _h_method(name):
+    answers = {'__len__': lambda self: 3, '__iter__': lambda self: iter((1, 2, 3)), '__bool__': lambda self: True,
+               '__eq__': lambda self, o: self is o, '__ne__': lambda self, o: self is not o,
+               '__hash__': lambda self: object.__hash__(self), '__contains__': lambda self, x: False,
+               '__getitem__': lambda self, i: (1, 2, 3)[i], '__copy__': lambda self: self,
+               '__deepcopy__': lambda self, memo: self, '__reduce_ex__': lambda self, p: (type(self), ()),
+               '__index__': lambda self: 3, '__float__': lambda self: 3.0}
+
+    if name == '__getattr__':
+        def m(self, attr):
+            if attr.startswith('_'):
+                raise AttributeError(attr)
+            self._t('__getattr__')
+            raise AttributeError(attr)
+    else:
+        def m(self, *a, _ans=answers[name]):
+            self._t(name)
+            return _ans(self, *a)
+    m.__name__ = name
+    return m
+
+
+_H_CLASSES = {}
+
+
+def _h_class(kind, raises=(), without=()):
+    if kind not in _H_CLASSES:
+        ns = {n: _h_method(n) for n in _H_METHODS if n not in without}
+        ns.update(kind=kind, RAISES=tuple(raises), __module__='c20_hostile')
+        _H_CLASSES[kind] = type('Hostile_' + re.sub(r'[^A-Za-z0-9]', '_', kind), (_HBase,), ns)
+    return _H_CLASSES[kind]
+
+
+_NO_NUM = ('__index__', '__float__')
+# kind -> (value class used in finding keys, factory).  One-shot iterables carry their expected remaining content.
+HOSTILE_KINDS = {
+    'generator': ('one-shot-iterable-without-len', lambda: (x for x in ('b1', 'b2', 'b3'))),
+    'list-iterator': ('one-shot-iterable-without-len', lambda: iter(['b1', 'b2', 'b3'])),
+    'map-object': ('one-shot-iterable-without-len', lambda: map(str, ('b1', 'b2', 'b3'))),
+    'zip-object': ('one-shot-iterable-without-len', lambda: zip(('b1', 'b2'), (1, 2))),
+    'dict-keys': ('sized-view', lambda: {'b1': 1, 'b2': 2}.keys()),
+    'range': ('sized-view', lambda: range(3)),
+    'unsized-iterable': ('iterable-without-len', lambda: _h_class('unsized-iterable', without=('__len__', '__getitem__', '__contains__') + _NO_NUM)()),
+    'counting': ('value-with-recorded-special-methods', lambda: _h_class('counting', without=_NO_NUM)()),
+    'counting-number': ('value-with-recorded-special-methods', lambda: _h_class('counting-number', without=('__len__', '__iter__', '__getitem__', '__contains__'))()),
+    'len-raises': ('len-raises', lambda: _h_class('len-raises', raises=('__len__',), without=_NO_NUM)()),
+    'iter-raises': ('iter-raises', lambda: _h_class('iter-raises', raises=('__iter__',), without=_NO_NUM)()),
+    'bool-raises': ('truth-value-raises', lambda: _h_class('bool-raises', raises=('__bool__',), without=('__len__',) + _NO_NUM)()),
+    'eq-raises': ('comparison-raises', lambda: _h_class('eq-raises', raises=('__eq__', '__ne__'), without=_NO_NUM)()),
+    'hash-raises': ('hash-raises', lambda: _h_class('hash-raises', raises=('__hash__',), without=_NO_NUM)()),
+    'getattr-raises': ('attribute-probe-raises', lambda: _h_class('getattr-raises', raises=('__getattr__',), without=_NO_NUM)()),
+    'copy-raises': ('copy-raises', lambda: _h_class('copy-raises', raises=('__copy__', '__deepcopy__', '__reduce_ex__'), without=_NO_NUM)()),
+    'repr-raises': ('repr-raises', lambda: _h_class('repr-raises', raises=('__repr__',), without=_NO_NUM)()),
+    'str-raises': ('text-rendering-raises', lambda: _h_class('str-raises', raises=('__str__',), without=_NO_NUM)()),
+    'format-raises': ('text-rendering-raises', lambda: _h_class('format-raises', raises=('__format__',), without=_NO_NUM)()),
+    'numpy-0d': ('array', lambda: __import__('numpy').array(1.5)),
+    'numpy-1d': ('array', lambda: __import__('numpy').array([0.25, 0.5, 0.75])),
+    'numpy-empty': ('array', lambda: __import__('numpy').zeros((0, 2))),
+    'dataframe': ('data-frame', lambda: __import__('pandas').DataFrame({'a': [1, 2], 'b': [0.5, 1.5]})),
+    'series': ('data-frame', lambda: __import__('pandas').Series([1.0, 2.0], name='s')),
+    'format-chars-str': ('text', lambda: '%s %(x)s {0} {value} {} \\ \' "'),
+    'surrogate-str': ('text', lambda: 'lone \ud800 surrogate'),
+    'bytes': ('text', lambda: b'\xff\x00 bytes'),
+}
+# (quick / thorough use all kinds in DPV; the positional pools of the alias layers use 8 of them, by VERIF_SEED)
+HOSTILE_POOL = [
+    ['generator', 'counting', 'bool-raises', 'str-raises', 'eq-raises', 'len-raises', 'list-iterator', 'repr-raises'],
+    ['map-object', 'counting-number', 'format-raises', 'hash-raises', 'getattr-raises', 'unsized-iterable', 'iter-raises', 'copy-raises'],
+    ['zip-object', 'counting', 'numpy-0d', 'dataframe', 'surrogate-str', 'format-chars-str', 'generator', 'bool-raises'],
+    ['counting', 'str-raises', 'repr-raises', 'format-raises', 'len-raises', 'eq-raises', 'map-object', 'numpy-1d'],
+]
+_ONESHOT = {}   # id(value) -> (value, expected remaining content): filled by hostile_make, emptied by untouched()
+
+
+def hostile_make(kind):
+    v = HOSTILE_KINDS[kind][1]()
+    if HOSTILE_KINDS[kind][0] == 'one-shot-iterable-without-len':
+        twin = HOSTILE_KINDS[kind][1]()
+        if len(_ONESHOT) > 64:
+            _ONESHOT.clear()
+        _ONESHOT[id(v)] = (v, list(twin))
+    return v
+
+
+def untouched(values, consume=True):
+    """The 'handed on untouched' clause, for every hostile value among `values`: -> (list of what was done, rendered count).
+    No special method may have been called (a text rendering is tolerated and counted); one-shot iterables must still
+    deliver their whole content (checked - by consuming them - only when `consume`).  The records are cleared."""
+    out, rendered = [], 0
+    for v in values:
+        if isinstance(v, _HBase):
+            calls = [c for c in v._log if c not in RENDER]
+            rendered += len(v._log) - len(calls)
+            if calls:
+                out.append(f'{", ".join(calls)} of the {v.kind} value called')
+            del v._log[:]
+        elif consume and id(v) in _ONESHOT and _ONESHOT[id(v)][0] is v:
+            _, want = _ONESHOT.pop(id(v))
+            left = list(v)
+            if left != want:
+                out.append(f'the {type(v).__name__} was consumed: {len(left)} of {len(want)} items left')
+    return out, rendered
+
+
+def _sr(x, depth=0):
+    """repr() that never raises and never contains an address (hostile values in messages)."""
+    if isinstance(x, _HBase):
+        return f'<{x.kind} value>'
+    if isinstance(x, (tuple, list)) and depth < 3:
+        inner = ', '.join(_sr(v, depth + 1) for v in x)
+        return ('(' + inner + (',' if len(x) == 1 else '') + ')') if isinstance(x, tuple) else '[' + inner + ']'
+    if isinstance(x, dict) and depth < 3:
+        return '{' + ', '.join(f'{_sr(k, depth + 1)}: {_sr(v, depth + 1)}' for k, v in x.items()) + '}'
+    try:
+        return _mask(repr(x))[:300]
+    except BaseException as e:  # noqa
+        return f'<{type(x).__name__}: repr raises {type(e).__name__}>'
 
 
 # =========================================================================== discovery
@@ -425,13 +621,18 @@ def make_args(shape, pool):
     vals = pool_values(pool)
     pos = tuple(vals[i % len(vals)] for i in range(npos))
     kw = {k: vals[(npos + j) % len(vals)] for j, k in enumerate(kwn)}
-    ret = vals[(npos + len(kwn)) % len(vals)] if pool == 'val' else Tok('ret')
+    ret = vals[(npos + len(kwn)) % len(vals)] if pool == 'val' else hostile_make('counting') if pool == 'hostile' else Tok('ret')
     return pos, kw, ret, raises
 
 
 def judge_call(obs, sink, result, exc, exp_args, exp_kw, newname, n_warn=1, warn_names=None):
     """Common oracle of a sentinel probe.  Returns list of (clause, detail, expected, observed)."""
     bad = []
+    # (first, before any value is rendered into a message: were the values handed on untouched?)
+    touch, _ = untouched(list(exp_args) + list(exp_kw.values()) + [sink.ret])
+    for t in touch:
+        bad.append(('argument-not-handed-on-untouched', t, 'values are handed to the replacement as they are (no special '
+                    'method called, iterators unconsumed)', t))
     if not sink.calls:
         bad.append(('alias-does-not-reach-receivers-replacement',
                     f'the redefined/own replacement {newname} was never called'
@@ -442,18 +643,18 @@ def judge_call(obs, sink, result, exc, exp_args, exp_kw, newname, n_warn=1, warn
     else:
         a, k = sink.calls[0]
         if not same_objs(a, exp_args):
-            bad.append(('arguments-not-passed-through', f'positional {a!r} instead of {exp_args!r}', repr(exp_args), repr(a)))
+            bad.append(('arguments-not-passed-through', f'positional {_sr(a)} instead of {_sr(exp_args)}', _sr(exp_args), _sr(a)))
         if not same_kw(k, exp_kw):
-            bad.append(('arguments-not-passed-through', f'keywords {k!r} instead of {exp_kw!r}', repr(exp_kw), repr(k)))
+            bad.append(('arguments-not-passed-through', f'keywords {_sr(k)} instead of {_sr(exp_kw)}', _sr(exp_kw), _sr(k)))
         if sink.raises:
             if exc is not sink.exc:
-                bad.append(('exception-not-passed-through', f'got {exc!r}', repr(sink.exc), repr(exc)))
+                bad.append(('exception-not-passed-through', f'got {_sr(exc)}', _sr(sink.exc), _sr(exc)))
         else:
             if exc is not None:
-                bad.append(('alias-raises', f'{type(exc).__name__}: {exc}', 'no exception', repr(exc)))
+                bad.append(('alias-raises', f'{type(exc).__name__}: {exc}', 'no exception', _sr(exc)))
             elif result is not sink.ret:
-                bad.append(('result-not-passed-through', f'returned {result!r} instead of {sink.ret!r}',
-                            repr(sink.ret), repr(result)))
+                bad.append(('result-not-passed-through', f'returned {_sr(result)} instead of {_sr(sink.ret)}',
+                            _sr(sink.ret), _sr(result)))
     dw = obs.dep_warnings()
     if len(dw) != n_warn:
         bad.append(('warning-count', f'{len(dw)} DeprecationWarning(s) instead of {n_warn}: {[str(x.message) for x in dw]}',
@@ -621,9 +822,11 @@ def l0_probe(form, alias, newname, recv, shape, pool):
         if who not in expect:
             bad.append(('alias-does-not-reach-receivers-replacement', f'reached {who}, expected {expect[0]}', expect[0], who))
         if not same_objs(a, exp_args) or not same_kw(k, kw):
-            bad.append(('arguments-not-passed-through', f'{a!r} {k!r} instead of {exp_args!r} {kw!r}', repr((exp_args, kw)), repr((a, k))))
+            bad.append(('arguments-not-passed-through', f'{_sr(a)} {_sr(k)} instead of {_sr(exp_args)} {_sr(kw)}', _sr((exp_args, kw)), _sr((a, k))))
         if res is not log[0]:
-            bad.append(('result-not-passed-through', f'{res!r}', 'the replacement\'s return value', repr(res)))
+            bad.append(('result-not-passed-through', f'{_sr(res)}', 'the replacement\'s return value', _sr(res)))
+    for t in untouched(list(pos) + list(kw.values()))[0]:
+        bad.append(('argument-not-handed-on-untouched', t, 'values are handed to the replacement as they are', t))
     dw = obs.dep_warnings()
     if len(dw) != 1:
         bad.append(('warning-count', f'{len(dw)} DeprecationWarning(s)', 1, len(dw)))
@@ -1483,11 +1686,574 @@ def dp_sanity(rec):
                 rec.case(('DPS', label), (label, new, verdict), outcome=('DPS', verdict))
 
 
+# =========================================================================== RK: what the replacement IS on the receiver
+# The receiver's replacement need not be a plain method: the alphabet below redefines the new name - in the receiver's class,
+# in a parent, in a mixin, by patching the declaring class itself (what a mock patch does), or on the instance - as every
+# kind of thing that `receiver.new_name(...)` can call.  Oracle = the property statement, with Python's own attribute
+# resolution as the reference: the call of the OLD name must hand the sentinel exactly what the call of the NEW name on the
+# same receiver hands it (same implementation, same bound objects, same arguments by identity, same result / exception) plus
+# one DeprecationWarning; an explicit table of the expected arguments per kind cross-checks the harness.
+_RK_CUR = {'sink': None}
+_RK_WHO = {}
+BASE_RAN = Tok('the-declared-base-replacement-ran')
+RK_EXTRA, RK_EXTRA_KW = Tok('partial-arg'), Tok('partial-kw')
+RK_CLASS_KINDS = ['def', 'classmethod', 'staticmethod', 'partialmethod', 'callable-object', 'descriptor', 'property',
+                  'staticmethod-of-callable-object', 'singledispatchmethod'] + (['partial'] if sys.version_info < (3, 13) else [])
+RK_INSTANCE_KINDS = ['instance-function', 'instance-bound-method', 'instance-callable-object']
+
+
+def rk_keyclass(rkind):
+    """Finding keys name the class of the redefinition, the message names the kind."""
+    return 'plain-method' if rkind == 'def' else 'instance-attribute' if rkind in RK_INSTANCE_KINDS else 'class-attribute-other-than-a-plain-method'
+
+
+def _rk_hit(args, kwargs):
+    return _RK_CUR['sink'](args, kwargs)
+
+
+def rk_who(kind):
+    return _RK_WHO.setdefault(kind, Tok('ran:' + kind))
+
+
+class _RKCallable:
+    def __init__(self, who):
+        self.who = who
+
+    def __call__(self, *a, **k):
+        return _rk_hit((self.who, self) + a, k)
+
+
+class _RKDescriptor:
+    def __init__(self, who):
+        self.who = who
+
+    def __get__(self, obj, owner=None):
+        who = self.who
+
+        def bound(*a, **k):
+            return _rk_hit((who, obj, owner) + a, k)
+        return bound
+
+
+class _RKOther:
+    def __init__(self, who):
+        self.who = who
+
+    def m(self, *a, **k):
+        return _rk_hit((self.who, self) + a, k)
+
+
+_RK_OBJ = {}
+
+
+def rk_object(kind):
+    """-> (attribute object, model) - model(obj, T, pos, kw) = (args, kwargs) that ``obj.new(*pos, **kw)`` hands to the sentinel
+    when obj is an INSTANCE of T (None: no prediction, e.g. dispatch on the first argument's type)."""
+    if kind in _RK_OBJ:
+        return _RK_OBJ[kind]
+    import functools
+    who = rk_who(kind)
+
+    def impl(self, *a, **k):
+        return _rk_hit((who, self) + a, k)
+
+    def free(*a, **k):
+        return _rk_hit((who,) + a, k)
+
+    if kind == 'def':
+        r = impl, (lambda o, T, p, k: ((who, o) + p, k))
+    elif kind == 'classmethod':
+        r = classmethod(impl), (lambda o, T, p, k: ((who, T) + p, k))
+    elif kind == 'staticmethod':
+        r = staticmethod(free), (lambda o, T, p, k: ((who,) + p, k))
+    elif kind == 'partialmethod':
+        r = functools.partialmethod(impl, RK_EXTRA, c20_pk=RK_EXTRA_KW), (lambda o, T, p, k: ((who, o, RK_EXTRA) + p, {'c20_pk': RK_EXTRA_KW, **k}))
+    elif kind == 'partial':
+        r = functools.partial(free, RK_EXTRA, c20_pk=RK_EXTRA_KW), (lambda o, T, p, k: ((who, RK_EXTRA) + p, {'c20_pk': RK_EXTRA_KW, **k}))
+    elif kind == 'callable-object':
+        co = _RKCallable(who)
+        r = co, (lambda o, T, p, k: ((who, co) + p, k))
+    elif kind == 'staticmethod-of-callable-object':
+        co = _RKCallable(who)
+        r = staticmethod(co), (lambda o, T, p, k: ((who, co) + p, k))
+    elif kind == 'descriptor':
+        r = _RKDescriptor(who), (lambda o, T, p, k: ((who, o, T) + p, k))
+    elif kind == 'property':
+        def fget(self):
+            def bound(*a, **k):
+                return _rk_hit((who, self) + a, k)
+            return bound
+        r = property(fget), (lambda o, T, p, k: ((who, o) + p, k))
+    elif kind == 'singledispatchmethod':
+        r = functools.singledispatchmethod(impl), None
+    elif kind == 'instance-function':
+        r = free, (lambda o, T, p, k: ((who,) + p, k))
+    elif kind == 'instance-bound-method':
+        other = _RKOther(who)
+        r = other.m, (lambda o, T, p, k: ((who, other) + p, k))
+    elif kind == 'instance-callable-object':
+        co = _RKCallable(who)
+        r = co, (lambda o, T, p, k: ((who, co) + p, k))
+    else:
+        raise ValueError(kind)
+    _RK_OBJ[kind] = r
+    return r
+
+
+def _state_of(obj):
+    try:
+        return dict(vars(obj))
+    except TypeError:
+        return {}
+
+
+def rk_compare(call_new, call_old, sink, newname, watch, state, model_args=None):
+    """The call of the new name, then the call of the old name, on the same receiver.
+    -> (bad, outcome, flags) ; flags: set of harness telltales."""
+    flags = set()
+    _RK_CUR['sink'] = sink
+    try:
+        rn = en = ro = eo = None
+        with Observe() as on:
+            try:
+                rn = call_new()
+            except BaseException as e:  # noqa
+                en = e
+        calls_n = list(sink.calls)
+        del sink.calls[:]
+        if untouched(watch, consume=False)[0] or on.dep_warnings() or on.other_warnings() or on.records or on.out:
+            flags.add('rk_new_name_call_is_not_silent')
+        st0 = state()
+        with Observe() as oo:
+            try:
+                ro = call_old()
+            except BaseException as e:  # noqa
+                eo = e
+        st1 = state()
+    finally:
+        _RK_CUR['sink'] = None
+    reached = len(calls_n) == 1 and ((en is None and rn is sink.ret and not sink.raises) or (sink.raises and en is sink.exc))
+    if reached:
+        if model_args is not None and not (same_objs(calls_n[0][0], model_args[0]) and same_kw(calls_n[0][1], model_args[1])):
+            flags.add('rk_model_disagrees_with_python')
+        bad = judge_call(oo, sink, ro, eo, calls_n[0][0], calls_n[0][1], newname)
+        mode = 'reached'
+    elif not calls_n and en is not None:
+        # the new name itself refuses this call (e.g. a missing receiver argument): so must the old one, the same way
+        mode = 'new-name-refuses'
+        bad = [('argument-not-handed-on-untouched', t, 'untouched', t) for t in untouched(watch)[0]]
+        if sink.calls:
+            bad.append(('different-outcome', f'{newname}(...) raises {type(en).__name__} before any replacement runs, the old name runs one', type(en).__name__, 'runs'))
+        elif eo is None or type(eo) is not type(en) or str(eo) != str(en):
+            bad.append(('different-outcome', f'new name: {type(en).__name__}: {en}; old name: ' + (f'{type(eo).__name__}: {eo}' if eo is not None else f'returns {_sr(ro)}'),
+                        f'{type(en).__name__}: {en}', f'{type(eo).__name__}: {eo}' if eo is not None else 'returns'))
+        dw = oo.dep_warnings()
+        if len(dw) != 1:
+            bad.append(('warning-count', f'{len(dw)} DeprecationWarning(s)', 1, len(dw)))
+        if oo.other_warnings() or oo.records or oo.out:
+            bad.append(('adds-more-than-the-warning', f'{len(oo.other_warnings())} other warnings, {oo.records}, {oo.out[:60]!r}', 'nothing', 'something'))
+    else:
+        flags.add('rk_new_name_call_unexpected')
+        return [], ('unexpected', len(calls_n), type(en).__name__ if en is not None else None), flags
+    if list(st0) != list(st1) or any(st0[k] is not st1[k] for k in st0):
+        bad.append(('adds-more-than-the-warning', f'receiver state changed: {sorted(set(st0) ^ set(st1)) or "values replaced"}', sorted(st0), sorted(st1)))
+    return bad, (mode,) + outcome_of(bad, sink, eo), flags
+
+
+# ---- RK0: decorator level (toy classes declared with the real decorator)
+RK0_POSITIONS = ['own', 'parent', 'mixin', 'patch']
+RK0_FLAVOURS = ['plain', 'falsy', 'bool-raises', 'eq-raises', 'getattribute-hook', 'setattr-raises']
+RK0_META_FLAVOURS = ['plain', 'meta-bool-raises']
+RK0_NAMES = {'method': ('oldM', 'new_m'), 'classmethod': ('oldC', 'new_c')}
+_RK0_CACHE = {}
+
+
+def _raiser(name):
+    def m(self, *a, **k):
+        raise HostileError(f'{name} of the receiver was called')
+    m.__name__ = name
+    return m
+
+
+def _flavour_ns(flavour):
+    if flavour == 'falsy':
+        return {'__len__': lambda self: 0}
+    if flavour == 'bool-raises':
+        return {'__bool__': _raiser('__bool__')}
+    if flavour == 'eq-raises':
+        return {'__eq__': _raiser('__eq__'), '__ne__': _raiser('__ne__'), '__hash__': object.__hash__}
+    if flavour == 'getattribute-hook':
+        def ga(self, name):
+            return object.__getattribute__(self, name)
+        return {'__getattribute__': ga}
+    if flavour == 'setattr-raises':
+        return {'__setattr__': _raiser('__setattr__'), '__delattr__': _raiser('__delattr__')}
+    return {}
+
+
+def rk0_build(form, rkind, position, flavour):
+    """-> (receiver class T, receiver object, declared Base).  Everything is declared for real (class bodies, the real
+    decorator of the tree under test); cached: the classes are stateless."""
+    key = (form, rkind, position, flavour)
+    if key in _RK0_CACHE:
+        return _RK0_CACHE[key]
+    from biogeme.deprecated import deprecated
+
+    meta = type
+    if flavour == 'meta-bool-raises':
+        class Meta(type):
+            def __bool__(cls):
+                raise HostileError('__bool__ of the receiver class was called')
+
+            def __len__(cls):
+                raise HostileError('__len__ of the receiver class was called')
+        meta = Meta
+
+    class Base(metaclass=meta):
+        def new_m(self, *a, **k):
+            return BASE_RAN
+
+        @deprecated(new_m)
+        def oldM(self, *a, **k):
+            pass
+
+        @classmethod
+        def new_c(cls, *a, **k):
+            return BASE_RAN
+
+        @classmethod
+        @deprecated(new_c.__func__)
+        def oldC(cls, *a, **k):
+            pass
+
+    newname = RK0_NAMES[form][1]
+    attr = rk_object(rkind)[0]
+    on_instance = rkind in RK_INSTANCE_KINDS
+    if on_instance or position == 'own':
+        T = meta('T', (Base,), {} if on_instance else {newname: attr})
+    elif position == 'parent':
+        P = meta('P', (Base,), {newname: attr})
+        T = meta('T', (P,), {})
+    elif position == 'mixin':
+        M = meta('M', (), {newname: attr})
+        T = meta('T', (M, Base), {})
+    elif position == 'patch':
+        setattr(Base, newname, attr)
+        T = Base
+    else:
+        raise ValueError(position)
+    obj = object.__new__(T)
+    if on_instance:
+        obj.__dict__[newname] = attr
+    for k, v in _flavour_ns(flavour).items():
+        setattr(T, k, v)
+    _RK0_CACHE[key] = (T, obj, Base)
+    return _RK0_CACHE[key]
+
+
+def rk0_cases(tier):
+    """(form, replacement kind, position, receiver flavour, path)"""
+    for form in ('method', 'classmethod'):
+        flavours = RK0_FLAVOURS if form == 'method' else RK0_META_FLAVOURS
+        paths = ('ordinary', 'viaclass') if form == 'method' else ('class', 'inst')
+        for rkind in RK_CLASS_KINDS + (RK_INSTANCE_KINDS if form == 'method' else []):
+            for position in (RK0_POSITIONS if rkind in RK_CLASS_KINDS else ['instance']):
+                for flavour in flavours:
+                    for path in paths:
+                        yield form, rkind, position, flavour, path
+
+
+def rk_shapes(tier):
+    if tier == 'quick':
+        return [(0, (), False), (2, ('k1',), False), (1, ('k1', 'k2'), False), (1, (), True)]
+    return [(n, k, False) for n in (0, 1, 2, 5) for k in ((), ('k1', 'k2'))] + [(0, (), True), (2, ('k1',), True)]
+
+
+def rk0_probe(form, rkind, position, flavour, path, shape, pool):
+    alias, newname = RK0_NAMES[form]
+    T, obj, Base = rk0_build(form, rkind, position, flavour)
+    pos, kw, ret, raises = make_args(shape, pool)
+    sink = Sink(ret, raises)
+    recv = obj if path in ('ordinary', 'viaclass', 'inst') else T
+    # (a class-method alias is bound to the class whichever way it is reached: obj.oldC() is type(obj).oldC(), whose
+    #  counterpart is type(obj).new_c())
+    recv_new = obj if form == 'method' else T
+    try:
+        ok = callable(getattr(recv_new, newname))
+    except BaseException:  # noqa
+        ok = False
+    if not ok:
+        return None   # out of the domain: the receiver does not expose a callable under the new name
+    model = rk_object(rkind)[1]
+    margs = model(obj, T, pos, kw) if (model is not None and form == 'method') else None
+    call_new = lambda: getattr(recv_new, newname)(*pos, **kw)  # noqa: E731
+    if path == 'viaclass':
+        call_old = lambda: getattr(T, alias)(obj, *pos, **kw)  # noqa: E731
+    else:
+        call_old = lambda: getattr(recv, alias)(*pos, **kw)  # noqa: E731
+    return rk_compare(call_new, call_old, sink, newname, list(pos) + list(kw.values()) + [ret], lambda: _state_of(obj), margs)
+
+
+def rk0_run(rec, tier):
+    for (form, rkind, position, flavour, path) in rk0_cases(tier):
+        for shape in rk_shapes(tier):
+            for pool in HPOOLS:
+                r = rk0_probe(form, rkind, position, flavour, path, shape, pool)
+                if r is None:
+                    rec.count('rk_out_of_domain_new_name_is_not_callable_on_the_receiver')
+                    continue
+                bad, outcome, flags = r
+                for f in flags:
+                    rec.count(f)
+                rec.count('rk0_probes')
+                rec.case(('RK0', form, rkind, position, flavour, path, shape, pool), (form, rkind, position, flavour, path, shape, pool, outcome),
+                         outcome=('RK0', form, rkind in RK_INSTANCE_KINDS) + outcome)
+                _viol(rec, 'RK0 kind of the replacement on the receiver', f'decorator-level:{form}:replacement-redefined-as-{rk_keyclass(rkind)}',
+                      f'{form} alias; the receiver\'s {RK0_NAMES[form][1]} is a {rkind} ({position}), receiver flavour {flavour}, path {path}', bad,
+                      dict(part='RK0', form=form, rkind=rkind, position=position, flavour=flavour, path=path,
+                           shape=[shape[0], list(shape[1]), shape[2]], pool=pool))
+
+
+# ---- RK1: every (receiver class, alias) pair of the package
+_RK1_CACHE = {}
+_MISSING = object()
+
+
+def rk1_positions(tier):
+    return ['own', 'patch'] if tier == 'quick' else ['own', 'parent', 'patch']
+
+
+def rk1_shapes(tier):
+    if tier == 'quick':
+        return [((0, (), False), 'obj'), ((2, ('k1',), False), 'obj'), ((2, ('k1',), False), 'hostile'), ((1, (), True), 'obj')]
+    return [(s, p) for s in l1x_shapes('quick') for p in HPOOLS]
+
+
+def _rk1_receiver_class(C, newname, rkind, position):
+    key = (C, newname, rkind, position)
+    if key not in _RK1_CACHE:
+        P = _plain_sub(C)
+        if rkind in RK_INSTANCE_KINDS or position == 'patch':
+            T = P if P is not C else type(C)('K_' + C.__name__, (C,), {'__module__': 'c20_throwaway'})
+        else:
+            T = type(C)('K_' + C.__name__, (P,), {newname: rk_object(rkind)[0], '__module__': 'c20_throwaway'})
+            if position == 'parent':
+                T = type(C)('K2_' + C.__name__, (T,), {'__module__': 'c20_throwaway'})
+        _RK1_CACHE[key] = T
+    return _RK1_CACHE[key]
+
+
+def rk1_probe(pair, rkind, position, shape, pool):
+    """-> (bad, outcome, flags) | None (not applicable) | 'out-of-domain'"""
+    import inspect
+
+    cmod, cqual, alias, newname, dmod, dqual, kind = pair
+    C = _get_class(cmod, cqual)
+    if kind != 'method' or inspect.getattr_static(C, newname, None) is None:
+        return None
+    T = _rk1_receiver_class(C, newname, rkind, position)
+    try:
+        obj = object.__new__(T)
+    except TypeError:
+        return None
+    attr, model = rk_object(rkind)
+    pos, kw, ret, raises = make_args(shape, pool)
+    sink = Sink(ret, raises)
+    saved = _MISSING
+    if rkind in RK_INSTANCE_KINDS:
+        try:
+            obj.__dict__[newname] = attr
+        except (AttributeError, TypeError):
+            return None
+    elif position == 'patch':
+        saved = vars(C).get(newname, _MISSING)
+        saved = (saved,)
+        setattr(C, newname, attr)
+    try:
+        try:
+            ok = callable(getattr(obj, newname))
+        except BaseException:  # noqa
+            ok = False
+        if not ok:
+            return 'out-of-domain'
+        margs = model(obj, T, pos, kw) if model is not None else None
+        return rk_compare(lambda: getattr(obj, newname)(*pos, **kw), lambda: getattr(obj, alias)(*pos, **kw), sink, newname,
+                          list(pos) + list(kw.values()) + [ret], lambda: _state_of(obj), margs)
+    finally:
+        if saved is not _MISSING:
+            if saved[0] is _MISSING:
+                delattr(C, newname)
+            else:
+                setattr(C, newname, saved[0])
+
+
+def rk1_cases(tier):
+    for rkind in RK_CLASS_KINDS:
+        for position in rk1_positions(tier):
+            yield rkind, position
+    for rkind in RK_INSTANCE_KINDS:
+        yield rkind, 'instance'
+
+
+def rk1_run(rec, pairs, tier):
+    for pair in pairs:
+        for rkind, position in rk1_cases(tier):
+            for shape, pool in rk1_shapes(tier):
+                r = rk1_probe(pair, rkind, position, shape, pool)
+                if r is None:
+                    rec.count('rk1_not_applicable_alias_is_not_a_method_with_a_member_replacement')
+                    continue
+                if r == 'out-of-domain':
+                    rec.count('rk_out_of_domain_new_name_is_not_callable_on_the_receiver')
+                    continue
+                bad, outcome, flags = r
+                for f in flags:
+                    rec.count(f)
+                rec.count('rk1_probes')
+                rec.case(('RK1', pair, rkind, position, shape, pool), (pair, rkind, position, shape, pool, outcome),
+                         outcome=('RK1', rkind in RK_INSTANCE_KINDS) + outcome)
+                _viol(rec, f'RK1 the receiver\'s replacement is a {rkind} ({position})', f'method:replacement-redefined-as-{rk_keyclass(rkind)}',
+                      f'{pair[1]}.{pair[2]} (declared in {pair[5]}) -> {pair[3]}', bad,
+                      dict(part='RK1', pair=list(pair), rkind=rkind, position=position,
+                           shape=[shape[0], list(shape[1]), shape[2]], pool=pool))
+
+
+# =========================================================================== DPV: values handed to obsolete keywords
+def dp_toy_entry():
+    """The real decorator on a toy function (two renamed keywords, one dropped), so that DPV never depends on what the
+    package happens to declare."""
+    from biogeme.deprecated import deprecated_parameters
+
+    @deprecated_parameters({'oldK': 'new_k', 'otherOld': 'other_new', 'gone': None})
+    def c20_toy(*args, new_k=None, other_new=None, **kwargs):
+        return None
+
+    return dict(label='c20_toy.c20_toy', func=c20_toy, levels=_dp_levels(c20_toy), owner=None)
+
+
+def dpv_entries():
+    return [dp_toy_entry()] + list(discover()['dp'])
+
+
+def dpv_cases(entry, tier):
+    """(obsolete keyword, value kind, positional count, companion)"""
+    obsolete = {}
+    for _, d in entry['levels']:
+        obsolete.update(d)
+    for old in sorted(obsolete):
+        for vk in HOSTILE_KINDS:
+            for npos in ((0, 1) if tier == 'quick' else (0, 1, 3)):
+                for comp in (('none', 'unrelated-after') if tier == 'quick' else ('none', 'unrelated-after', 'unrelated-before', 'other-obsolete')):
+                    yield old, vk, npos, comp
+
+
+def dpv_probe(entry, old, vk, npos, comp):
+    """f(old=v) with v from the hostile alphabet; control: f(new=v') with a twin value reaches the function untouched.
+    -> (bad, outcome, value class) | None | 'n/a'"""
+    obsolete = {}
+    for _, d in entry['levels']:
+        obsolete.update(d)
+    core = core_function(entry['func'])
+    if core is None:
+        return None
+    new = obsolete[old]
+    toks = [Tok(i) for i in range(4)]
+    pos = tuple(toks[:npos])
+
+    def kws(name, v):
+        kw = {name: v} if name else {}
+        if comp == 'unrelated-after':
+            kw['zz_unrelated'] = hostile_make('counting')
+        elif comp == 'unrelated-before':
+            kw = {'zz_unrelated': hostile_make('counting'), **kw}
+        elif comp == 'other-obsolete':
+            others = [k for k in sorted(obsolete) if k != old and obsolete[k] and obsolete[k] != new]
+            if not others:
+                return None
+            kw[others[0]] = hostile_make('counting')
+        return kw
+
+    # control: the new keyword with a twin value
+    twin = hostile_make(vk)
+    kw_new = kws(new, twin)
+    if kw_new is None:
+        return 'n/a'
+    sink = Sink(Tok('ret'), False)
+    exc = None
+    with CodeSwap(core, sink):
+        with Observe():
+            try:
+                entry['func'](*pos, **kw_new)
+            except BaseException as e:  # noqa
+                exc = e
+    if exc is not None or len(sink.calls) != 1 or untouched(list(kw_new.values()))[0]:
+        return 'control-fails'
+    v = hostile_make(vk)
+    kw = kws(old, v)
+    exp_kw, warns = ref_rename(obsolete, kw)
+    sink = Sink(Tok('ret'), False)
+    res = exc = None
+    with CodeSwap(core, sink):
+        with Observe() as obs:
+            try:
+                res = entry['func'](*pos, **kw)
+            except BaseException as e:  # noqa
+                exc = e
+    # (the text of the warning is the library's business, but it must have been produced without touching the value -
+    #  dropped keywords included)
+    touch, rendered = untouched(list(kw.values()))
+    bad = [('argument-not-handed-on-untouched', t, 'values are handed to the function as they are (no special method '
+            'called, iterators unconsumed)', t) for t in touch]
+    bad += judge_call(obs, sink, res, exc, pos, exp_kw, entry['label'], n_warn=len(warns), warn_names=warns)
+    if exc is not None and not sink.calls:
+        # one root cause: the call was refused before the function ran (no separate 'never called' / warning-count lines)
+        bad = [b for b in bad if b[0] == 'argument-not-handed-on-untouched']
+        bad.append(('old-keyword-refuses-a-value-the-new-keyword-accepts',
+                    f'{old}=<{vk}> raises {type(exc).__name__}: {_mask(str(exc))[:200]} before the function runs, while '
+                    + (f'{new}=<{vk}> is handed to the function as it is' if new else 'the call without it works'),
+                    'the function is called' + (f' with {new}=<the value>' if new else ''), f'{type(exc).__name__}'))
+    return bad, outcome_of(bad, sink, exc) + (bool(rendered), new is None), ('renamed' if new else 'dropped') + '-keyword-value:' + HOSTILE_KINDS[vk][0]
+
+
+def _dpv_viol(rec, label, bad, vclass, case):
+    """Keys: a value that was touched is keyed by WHAT was done to it (which special methods / consumed), everything else
+    by the class of the value."""
+    for b in bad:
+        if b[0] == 'argument-not-handed-on-untouched':
+            m = re.match(r'(.*?) of the .* value called$', b[1])
+            what = '+'.join(sorted(set(m.group(1).split(', ')))) if m else 'iterator-consumed'
+            _viol(rec, 'DPV value handed to an obsolete keyword', vclass.split(':')[0] + f':{what}', label, [b], case)
+        else:
+            _viol(rec, 'DPV value handed to an obsolete keyword', vclass, label, [b], case)
+
+
+def dpv_run(rec, tier):
+    for entry in dpv_entries():
+        for old, vk, npos, comp in dpv_cases(entry, tier):
+            r = dpv_probe(entry, old, vk, npos, comp)
+            if r is None:
+                rec.count('dp_core_not_swappable')
+                continue
+            if r == 'n/a':
+                continue
+            if r == 'control-fails':
+                rec.count('dpv_out_of_domain_new_keyword_does_not_take_the_value_untouched')
+                continue
+            bad, outcome, vclass = r
+            rec.count('dpv_probes')
+            if outcome[-2]:
+                rec.count('dpv_value_rendered_into_the_warning_text')
+            rec.case(('DPV', entry['label'], old, vk, npos, comp), (entry['label'], old, vk, npos, comp, outcome), outcome=('DPV', vclass) + outcome)
+            _dpv_viol(rec, f'{entry["label"]}({old}=<{vk} value>, {npos} positional, companion {comp})', bad, vclass,
+                      dict(part='DPV', label=entry['label'], old=old, vk=vk, npos=npos, comp=comp))
+
+
 # =========================================================================== tasks
 L1_SHARDS = {'quick': 24, 'thorough': 48}
 L0H_SHARDS = {'quick': 3, 'thorough': 12}
 VARIANTS = ['sub1', 'sub2', 'viaclass', 'own']
 POOLS = ['obj', 'val']
+HPOOLS = POOLS + ['hostile']   # (the layers that also hand on values which must arrive untouched)
 
 
 def tasks(tier, seed):
@@ -1495,6 +2261,8 @@ def tasks(tier, seed):
     t.append(dict(part='L0', tier=tier))
     t.append(dict(part='L1F', tier=tier))
     t.append(dict(part='DP', tier=tier))
+    t.append(dict(part='DPV', tier=tier))
+    t.append(dict(part='RK0', tier=tier))
     n = L1_SHARDS[tier]
     for i in range(n):
         t.append(dict(part='L1', shard=i, of=n, tier=tier))
@@ -1504,6 +2272,8 @@ def tasks(tier, seed):
             t.append(dict(part='L0H', kind=kind, shard=i, of=nh, tier=tier))
     for i in range(n):
         t.append(dict(part='L1X', shard=i, of=n, tier=tier))
+    for i in range(n):
+        t.append(dict(part='RK1', shard=i, of=n, tier=tier))
     t.extend(l2_tasks(tier))
     return t
 
@@ -2384,13 +3154,27 @@ def l2_explicit(rec, cq, R, want, task):
 
 
 # ---- obsolete keywords on real callables: f(old=v) vs f(new=v) (dropped keywords: f(old=v) vs f())
+class Fresh:
+    """A value of a keyword recipe that must be built anew for each side of a pair (one-shot iterables)."""
+
+    def __init__(self, label, make):
+        self.label, self.make = label, make
+
+
+def _iterable_forms(names):
+    """The same sequence of names handed over in every form an 'iterable of names' can take."""
+    return [Fresh('tuple', lambda: tuple(names)), Fresh('generator', lambda: (n for n in names)), Fresh('list-iterator', lambda: iter(list(names))),
+            Fresh('map-object', lambda: map(str, names)), Fresh('dict-keys', lambda: dict.fromkeys(names).keys()),
+            Fresh('reversed', lambda: reversed(list(names)[::-1])), Fresh('filter-object', lambda: filter(None, names))]
+
+
 def _kw_recipes():
     from biogeme.parameters import Parameters
     import biogeme.draws as dr
 
     un = lambda: _np([0.1, 0.9, 0.5, 0.3, 0.7, 0.2])  # noqa: E731
     R = {}
-    R['biogeme.draws.get_latin_hypercube_draws'] = dict(call=lambda c, kw: dr.get_latin_hypercube_draws(2, 3, **kw), values={'uniformNumbers': [un()]})
+    R['biogeme.draws.get_latin_hypercube_draws'] = dict(call=lambda c, kw: dr.get_latin_hypercube_draws(2, 3, **kw), values={'uniformNumbers': [un(), Fresh('list', lambda: [0.1, 0.9, 0.5, 0.3, 0.7, 0.2]), Fresh('generator', lambda: (x for x in [0.1, 0.9, 0.5, 0.3, 0.7, 0.2]))]})
     R['biogeme.draws.get_normal_wichura_draws'] = dict(call=lambda c, kw: dr.get_normal_wichura_draws(2, 3, **kw),
                                                        values={'uniformNumbers': [_np([[0.1, 0.9, 0.5], [0.3, 0.7, 0.2]])]})
     E = 'biogeme.expressions.base_expressions.Expression.'
@@ -2447,10 +3231,11 @@ def _kw_recipes():
     for m, k in (('get_latex', 'onlyRobust'), ('get_estimated_parameters', 'onlyRobust'), ('get_html', 'onlyRobust'), ('write_html', 'onlyRobust'),
                  ('get_f12', 'robustStdErr'), ('write_f12', 'robustStdErr')):
         R[Rq + m] = dict(build=rb, call=(lambda m: lambda c, kw: getattr(c['r'], m)(**kw))(m), values={k: [False, True]}, state=lambda c: vars(c['r']))
-    R[Rq + 'get_beta_values'] = dict(build=rb, call=lambda c, kw: c['r'].get_beta_values(**kw), values={'myBetas': [['b1'], None]})
+    R[Rq + 'get_beta_values'] = dict(build=rb, call=lambda c, kw: c['r'].get_beta_values(**kw),
+                                     values={'myBetas': [['b1'], None] + _iterable_forms(['b2', 'b1']) + _iterable_forms([])[1:3]})
     R[Rq + 'get_betas_for_sensitivity_analysis'] = dict(build=rb, call=lambda c, kw: c['r'].get_betas_for_sensitivity_analysis(
         **({'my_betas': ['b1', 'b2']} if 'myBetas' not in kw and 'my_betas' not in kw else {}), size=4, **kw),
-        values={'myBetas': [['b2']], 'useBootstrap': [False, True]})
+        values={'myBetas': [['b2'], ('b2', 'b1'), Fresh('generator', lambda: (n for n in ['b2']))], 'useBootstrap': [False, True]})
     return R
 
 
@@ -2478,6 +3263,8 @@ def l2_keywords(rec, tier, want):
                 build = r.get('build') or (lambda: {})
 
                 def val(v=v, r=r):
+                    if isinstance(v, Fresh):
+                        return v.make()
                     return r['subst'][v]() if isinstance(v, str) and v in r.get('subst', {}) else v
 
                 def co(c, old=old, r=r, val=val):
@@ -2540,7 +3327,7 @@ def run_task(task):
         for form, alias, newname, recvs in L0_FORMS:
             for recv in recvs:
                 for shape in shapes(tier):
-                    for pool in POOLS:
+                    for pool in HPOOLS:
                         r = l0_probe(form, alias, newname, recv, shape, pool)
                         if r is None:
                             continue
@@ -2554,7 +3341,7 @@ def run_task(task):
     elif part == 'L1F':
         for b in D['mod_aliases']:
             for shape in shapes(tier):
-                for pool in POOLS:
+                for pool in HPOOLS:
                     r = l1_fun_probe(b, shape, pool)
                     if r is None:
                         rec.count('l1_replacement_not_swappable')
@@ -2569,7 +3356,7 @@ def run_task(task):
         for pair in pairs:
             for variant in VARIANTS:
                 for shape in shapes(tier):
-                    for pool in POOLS:
+                    for pool in (POOLS if tier == 'quick' else HPOOLS):
                         r = l1_pair_probe(pair, variant, shape, pool)
                         if r == 'n/a':
                             rec.count('l1_own_variant_not_applicable_replacement_is_a_module_function')
@@ -2616,6 +3403,19 @@ def run_task(task):
                           f'{entry["label"]}(*{npos} positional, {list(subset)} + {extra})', bad,
                           dict(part='DP', label=entry['label'], subset=list(subset), npos=npos, extra=extra, order=order, pool=pool))
         rec.sample(dict(part='DP', callables=[e['label'] for e in D['dp']][:4], n=len(D['dp'])))
+    elif part == 'DPV':
+        dpv_run(rec, tier)
+        rec.sample(dict(part='DPV', value_kinds=list(HOSTILE_KINDS), callables=len(dpv_entries())))
+    elif part == 'RK0':
+        rk0_run(rec, tier)
+        rec.sample(dict(part='RK0', class_level_kinds=RK_CLASS_KINDS, instance_level_kinds=RK_INSTANCE_KINDS,
+                        positions=RK0_POSITIONS, flavours=RK0_FLAVOURS))
+    elif part == 'RK1':
+        pairs = D['pairs'][task['shard']::task['of']]
+        rk1_run(rec, pairs, tier)
+        rec.count('rk1_pairs_probed', len(pairs))
+        if pairs:
+            rec.sample(dict(part='RK1', shard=task['shard'], first_pair=list(pairs[0]), pairs=len(pairs)))
     elif part == 'L2':
         l2_run(task, rec)
     return rec.result()
@@ -2667,6 +3467,14 @@ def finalize(agg, tier, seed):
         agg.harness_errors.append(('no explicit call of a shadowed alias was explored: L0H / L1X would be vacuous', {}))
     if c.get('modules_not_importable', 0):
         agg.harness_errors.append(('some package modules could not be imported during discovery', {}))
+    if c.get('rk1_pairs_probed', 0) != c.get('discovered_class_alias_pairs', 0):
+        agg.harness_errors.append((f'RK1 probed {c.get("rk1_pairs_probed")} pairs of {c.get("discovered_class_alias_pairs")}', {}))
+    if not c.get('rk0_probes', 0) or not c.get('rk1_probes', 0) or not c.get('dpv_probes', 0):
+        agg.harness_errors.append(('RK0 / RK1 / DPV explored nothing: the exploration would be vacuous', {}))
+    for flag in ('rk_model_disagrees_with_python', 'rk_new_name_call_is_not_silent', 'rk_new_name_call_unexpected'):
+        if c.get(flag, 0):
+            agg.harness_errors.append((f'{flag}: {c.get(flag)} probes - the reference side of RK (the call of the new name) does not '
+                                       f'behave as the harness assumes', {}))
 
 
 # =========================================================================== replay
@@ -2717,6 +3525,22 @@ def replay(case):
         if r and r != 'collision':
             _viol(rec, 'DP keyword renaming', f'keyword:{entry["label"]}' if any(b[0] == 'arguments-not-passed-through' for b in r[0]) else 'keyword',
                   f'{entry["label"]}', r[0], case)
+    elif part == 'RK0':
+        r = rk0_probe(case['form'], case['rkind'], case['position'], case['flavour'], case['path'], shp(case['shape']), case['pool'])
+        if r:
+            _viol(rec, 'RK0 kind of the replacement on the receiver', f'decorator-level:{case["form"]}:replacement-redefined-as-{rk_keyclass(case["rkind"])}',
+                  f'{case["form"]} alias, {case["rkind"]} ({case["position"]}), flavour {case["flavour"]}, path {case["path"]}', r[0], case)
+    elif part == 'RK1':
+        pair = tuple(case['pair'])
+        r = rk1_probe(pair, case['rkind'], case['position'], shp(case['shape']), case['pool'])
+        if r and r != 'out-of-domain':
+            _viol(rec, f'RK1 the receiver\'s replacement is a {case["rkind"]} ({case["position"]})', f'method:replacement-redefined-as-{rk_keyclass(case["rkind"])}',
+                  f'{pair[1]}.{pair[2]} (declared in {pair[5]}) -> {pair[3]}', r[0], case)
+    elif part == 'DPV':
+        entry = next(e for e in dpv_entries() if e['label'] == case['label'])
+        r = dpv_probe(entry, case['old'], case['vk'], case['npos'], case['comp'])
+        if r and not isinstance(r, str):
+            _dpv_viol(rec, f'{entry["label"]}({case["old"]}=<{case["vk"]} value>)', r[0], r[2], case)
     elif part == 'L2':
         l2_replay(case, rec)
     return rec.violations
